@@ -37,6 +37,7 @@ type COp struct {
 type CopyCase struct {
 	Engine string `json:"engine"`
 	Limit  int    `json:"stack_limit"`
+	Trace  int    `json:"trace_limit"`
 	Ops    []COp  `json:"ops"`
 }
 
@@ -227,10 +228,15 @@ func applyOp(vm *otto.Otto, op *COp) string {
 	return ""
 }
 
+var rootTraceLimit int
+
 func newRoot(limit int) *otto.Otto {
 	vm := otto.New()
 	if limit > 0 {
 		vm.SetStackDepthLimit(limit)
+	}
+	if rootTraceLimit > 0 {
+		vm.SetStackTraceLimit(rootTraceLimit)
 	}
 	installCopy(vm)
 	return vm
@@ -260,6 +266,7 @@ func (copyEngine) Exec(ci interface{}, st *Stats) (*Violation, interface{}, bool
 	c := ci.(*CopyCase)
 	st.Cases++
 	crts = map[*otto.Otto]*crt{}
+	rootTraceLimit = c.Trace
 	v := execCopy(c, st)
 	if v != nil {
 		return v, c, true
@@ -527,6 +534,12 @@ func heapFragments(i int) []string {
 		"H.json" + n + "=JSON.parse('{\"a\":[1,{\"b\":null}]}');",
 		"H.ev" + n + "=eval('(function(){var q=" + n + ";return function(){return q++}})()');R.push({inc:H.ev" + n + ",peek:H.ev" + n + "});",
 		"H.nw" + n + "=new Function('a','return a+" + n + "');",
+		"H.pa" + n + "=(function(arguments){return function(){return String(arguments)}})(" + n + ");",
+		"H.em" + n + "={};H.ea" + n + "=[];H.ef" + n + "=function(){};",
+		"var loc='global';H.realEval=H.realEval||eval;eval=function(src){return 'wrapped'};",
+		"function dive" + n + "(k){if(k<=0){try{null.x}catch(e){return String(e.stack).split('\\n').length}}return dive" + n + "(k-1)}H.dive=dive" + n + ";",
+		"H.nfe" + n + "=(function(){var f=function me(k){return k<=0?[]:[function(){return me}].concat(me(k-1))};return f(2)})();",
+		"try{throw 1}catch(cx){H.cx1_" + n + "=function(){return cx++};H.cx2_" + n + "=function(){return cx}}",
 	}
 }
 
@@ -550,6 +563,12 @@ var observeFragments = []string{
 	"for(var k in H){try{if(k.slice(0,2)==='dt'){rec(k+':'+H[k].getTime());H[k].setTime(H[k].getTime()+1)}}catch(e){rec('E'+e)}}",
 	"for(var k in H){try{if(k.slice(0,2)==='nf')rec(k+':'+H[k](4)+':'+H[k].name)}catch(e){rec('E'+e)}}",
 	"try{rec(typeof gg1+':'+(typeof gf1==='function'?gf1():'-'))}catch(e){rec('E'+e)}",
+	"try{rec(typeof H.dive==='function'?H.dive(25)+':'+H.dive(3):'nodive')}catch(e){rec('E'+e)}",
+	"try{rec(H.realEval?(function(eval){var loc='local';return eval('loc')})(H.realEval)+':'+eval('loc'):'noeval')}catch(e){rec('E'+e)}",
+	"for(var k in H){try{if(k.slice(0,2)==='pa')rec(k+':'+H[k]())}catch(e){rec('E'+e)}}",
+	"for(var k in H){try{if(k.slice(0,2)==='em'||k.slice(0,2)==='ea'||k.slice(0,2)==='ef'){var eo=H[k];rec(k+':'+eo.m0+':'+eo.pk5+':'+eo.touched+':'+Object.keys(eo).join())}}catch(e){rec('E'+e)}}",
+	"for(var k in H){try{if(k.slice(0,3)==='cx1')rec(k+':'+H[k]()+':'+H['cx2'+k.slice(3)]())}catch(e){rec('E'+e)}}",
+	"for(var k in H){try{if(k.slice(0,3)==='nfe'){var l=H[k];rec(k+':'+l.length+':'+(l[0]()===l[1]())+':'+typeof l[0]())}}catch(e){rec('E'+e)}}",
 }
 
 var mutateFragments = []string{
@@ -613,6 +632,9 @@ func (copyEngine) Gen(t *rapid.T, tier string) interface{} {
 	c := &CopyCase{Engine: "copysim"}
 	if rapid.Bool().Draw(t, "limit?") {
 		c.Limit = rapid.IntRange(20, 60).Draw(t, "limit")
+	}
+	if rapid.IntRange(0, 2).Draw(t, "trace?") == 2 {
+		c.Trace = rapid.IntRange(1, 30).Draw(t, "trace")
 	}
 	uid := 0
 	nops := rapid.IntRange(1, 10).Draw(t, "nops")
